@@ -3,12 +3,12 @@
 # Evidence and replays of that run go to /tmp/seedeval/<PID>, never into /verif.
 set -u
 PATCH=$1; PID=$2; TIER=${3:-quick}
-WT=/tmp/seedwt
+WT=${SEEDWT:-/tmp/seedwt}
 if [ ! -d $WT ]; then git -C /repo worktree add --detach $WT HEAD >/dev/null 2>&1; fi
 git -C $WT checkout -q --detach "$(git -C /repo rev-parse HEAD)" && git -C $WT checkout -q -- . && git -C $WT clean -fdq -e target
 git -C $WT apply "$PATCH" || { echo "PATCH-DOES-NOT-APPLY"; exit 9; }
 rm -rf /tmp/seedeval/$PID
-GV_OUT=/tmp/seedeval/$PID GV_REPO=$WT GV_TARGET=/tmp/seedwt-target GV_HARNESS=/tmp/seedwt-harness /verif/gv check $PID --tier $TIER
+GV_OUT=/tmp/seedeval/$PID GV_REPO=$WT GV_TARGET=$WT-target GV_HARNESS=$WT-harness /verif/gv check $PID --tier $TIER
 rc=$?
 git -C $WT checkout -q -- .
 echo "seedtest $PID rc=$rc"
